@@ -23,7 +23,7 @@ ASSUMPTIONS = [
     "no ACL, implicit defaults off, add_comments off",
     "if both front ends raise the same exception type for an input they are counted as agreeing (exceptions_agreed)",
 ]
-FLOORS = {"quick": {"pairs_compared": 500, "nonempty_patches": 300, "file_workers_compared": 150, "file_workers_concrete_model": 80, "equal_config_pairs": 300, "device_workers_compared": 150, "device_workers_safe_differs_from_full": 40, "file_diff_lines_checked": 1500, "file_diff_moved_lines_checked": 60, "vlan_list_pairs": 300, "file_workers_compared_with_comments": 150, "patches_whose_commands_carry_comments": 10, "file_pairs_saved_with_a_left_margin": 100},
+FLOORS = {"quick": {"pairs_compared": 500, "nonempty_patches": 300, "file_workers_compared": 150, "file_workers_concrete_model": 80, "equal_config_pairs": 300, "device_workers_compared": 150, "device_workers_safe_differs_from_full": 40, "file_diff_lines_checked": 1500, "file_diff_moved_lines_checked": 60, "vlan_list_pairs": 300, "file_workers_compared_with_comments": 150, "patches_whose_commands_carry_comments": 10, "file_pairs_saved_with_a_left_margin": 100, "file_workers_with_another_output_indent": 40},
           "thorough": {"pairs_compared": 20000, "nonempty_patches": 12000, "file_workers_compared": 150, "file_workers_concrete_model": 80, "equal_config_pairs": 300, "device_workers_compared": 150, "device_workers_safe_differs_from_full": 40, "file_diff_lines_checked": 1500, "file_diff_moved_lines_checked": 60, "vlan_list_pairs": 6000, "file_workers_compared_with_comments": 150, "patches_whose_commands_carry_comments": 10}}
 EXTRA_MODELS = {"huawei": ["Huawei CE6870", "Huawei NE40E-X8", "Huawei Quidway S5300"], "huawei ce": ["Huawei"], "cisco": ["Cisco Catalyst 2960"],
                 "nexus": ["Cisco Nexus 3432"], "asr": ["Cisco XRv"], "iosxr": ["Cisco ASR 9010"]}
@@ -262,6 +262,11 @@ def run_files(spec, acc):
             h = HardwareView(j["model"], "")
             fmt = registry_connector.get().match(h).make_formatter()
             jobs.append(("hand:" + j["old"][:30], h, j["old"], j["new"], tabparser.parse_to_tree(j["old"], fmt.split), tabparser.parse_to_tree(j["new"], fmt.split)))
+        # RouterOS pairs (the one splitter that rebuilds nesting from the text with its own indent) under every output indent
+        for nm_, hw_, b_, a_, o_, n_ in list(jobs):
+            if nm_.startswith("routeros"):
+                for i_ in ("", "    ", "\t"):
+                    jobs.append((nm_ + "|indent=" + i_, hw_, b_, a_, o_, n_))
         # pairs whose patch holds commands with rule hints (shown with --add-comments only)
         for model in ("Cisco Catalyst 2960", "Cisco Catalyst 3560", "Cisco Catalyst", "Cisco ASR 9010", "Cisco XRv"):
             h = HardwareView(model, "")
@@ -278,7 +283,13 @@ def run_files(spec, acc):
                 f.write("".join(margin + ln if ln.strip() else ln for ln in before.splitlines(True)))
             with open(np_, "w") as f:
                 f.write("".join(margin + ln if ln.strip() else ln for ln in after.splitlines(True)))
-            args = types.SimpleNamespace(hw=hw, add_comments=False, indent="  ", show_rules=False, no_color=True, old=op, new=np_)
+            # the output option --indent (none, two blanks, four) changes how the result is printed, never how the saved configurations are read
+            ind = ("  ", "", "    ")[(jn // 3) % 3] if jn % 5 == 0 else "  "
+            if "|indent=" in name:
+                ind = name.split("|indent=")[1]
+            if ind != "  ":
+                acc.count("file_workers_with_another_output_indent")
+            args = types.SimpleNamespace(hw=hw, add_comments=False, indent=ind, show_rules=False, no_color=True, old=op, new=np_)
             w = {"files": True, "sample": name, "model": hw.model}
             try:
                 ddiff, dpatch = api._diff_and_patch(c01.Dev(hw), old, new, None, None, False)
@@ -305,7 +316,7 @@ def run_files(spec, acc):
             if hw.model not in corpus.STUB_HW.values():
                 acc.count("file_workers_concrete_model")
             acc.case(["files", name, hw.model], nontrivial=True)
-            exp_patch = api._format_patch_blocks(dpatch, hw, "  ")
+            exp_patch = api._format_patch_blocks(dpatch, hw, ind)
             got_patch = fp[0][1] if fp else ""
             if got_patch != exp_patch:
                 acc.violation("C16/patch-differs", "file_patch_worker prints a different patch than the device front end computes for the same configurations",
@@ -328,10 +339,10 @@ def run_files(spec, acc):
                 acc.violation("C16/patch-differs-with-add-comments", "with --add-comments file_patch_worker prints a different patch than the device front end",
                               dict(w, file_patch=got_c.split("\n")[:30], device_patch=exp_c.split("\n")[:30]))
                 continue
-            exp_diff = "".join(gen_pre_as_diff(make_pre(ddiff), False, "  ", True))
+            exp_diff = "".join(gen_pre_as_diff(make_pre(ddiff), False, ind, True))
             got_diff = fd[0][1] if fd else ""
             # the entries of the device front end's diff, written out by the monitor itself (one line per added / removed / affected / moved row)
-            own = own_diff_lines(ddiff)
+            own = own_diff_lines(ddiff, indent=ind)
             acc.count("file_diff_lines_checked", len(own))
             acc.count("file_diff_moved_lines_checked", sum(1 for x in own if x.startswith(">")))
             if sorted(x.rstrip() for x in got_diff.split("\n") if x.strip()) != sorted(own):
